@@ -265,7 +265,7 @@ def poly_grad_float(terms, xs, n):
 DEFAULT_OPTS = dict(
     n_comps=(2, 5), max_rank=2, max_extent=3, units=True, chains=True, max_deg=2,
     scaling=False, safe_indices=False, cycles=False, auto_ivc=True, shuffle_order=False,
-    implicit=False, array_scaling=False,
+    implicit=False, array_scaling=False, resp_chain=False,
 )
 
 
@@ -408,6 +408,8 @@ def gen_md(rng, **kw):
         _add_converging_feedback(rng, md)
     elif o['cycles']:
         _add_feedback(rng, md)
+    if o['resp_chain']:
+        _add_response_chain(rng, md)
     _assign_styles(rng, md)
     if o['shuffle_order']:
         order = list(range(len(comps)))
@@ -416,6 +418,41 @@ def gen_md(rng, **kw):
     else:
         md['add_order'] = list(range(len(comps)))
     return md
+
+
+def _add_response_chain(rng, md):
+    """Append root-level components z = k * y (elementwise, whole output of an existing component,
+    preferably one inside a sub-group): responses that depend on another response, so that adjoint
+    right-hand sides reaching a sub-group are multiples of one another (LinearRHSChecker caches)."""
+    comps, conns = md['comps'], md['conns']
+    cands = [(ci, od) for ci, c in enumerate(comps) if c['kind'] != 'ivc' for od in c['outs']]
+    if not cands:
+        return
+    pref = [x for x in cands if comps[x[0]]['group']]
+    sci, sod = rng.choice(pref or cands)
+    size = int(np.prod(sod['shape']))
+    chain = [[sci, sod['name']]]
+    for q in range(rng.randint(1, 2)):
+        ci = len(comps)
+        c = {'name': 'rc%d' % q, 'group': '', 'kind': 'explicit',
+             'ins': [{'name': 'a0', 'shape': list(sod['shape']), 'units': sod['units']}],
+             'outs': [{'name': 'z%d' % q, 'shape': list(sod['shape']), 'units': None}],
+             'promote_outs': False, 'partials': rng.choice(['dense', 'sparse']),
+             'in_elems': [(0, e) for e in range(size)]}
+        same = rng.random() < 0.7
+        k0 = rng.choice([F(-3, 2), F(-2), F(-1, 2), F(-3), F(2), F(-1), F(1)])
+        polys = []
+        for e in range(size):
+            k = k0 if same else rng.choice([F(-3, 2), F(-2), F(-1, 2), F(3), F(-1)])
+            terms = [{'c': rat(k), 'mon': [[e, 1]]}]
+            if rng.random() < 0.3:
+                terms.insert(0, {'c': rat(rand_coef(rng)), 'mon': []})
+            polys.append(terms)
+        c['poly'] = {'z%d' % q: polys}
+        conns.append({'tgt': [ci, 'a0'], 'src': [sci, sod['name']], 'chain': [], 'style': None})
+        comps.append(c)
+        chain.append([ci, 'z%d' % q])
+    md['resp_chain'] = chain
 
 
 def _add_feedback(rng, md):
@@ -1028,12 +1065,13 @@ def _apply_solver_cfg(om, model, gobj, cfg):
     """cfg['linear'] in {None,'runonce','direct','direct_asm','krylov','lbgs','lbjac'}, applied at the
     root; cfg['sub_linear'] the same for every sub-group; cfg['jac'] in {None,'dense','csc','csr'}."""
     def mk(kind):
+        rc = cfg.get('rhs_checking') or False
         if kind == 'direct':
-            return om.DirectSolver(assemble_jac=False)
+            return om.DirectSolver(assemble_jac=False, rhs_checking=rc)
         if kind == 'direct_asm':
-            return om.DirectSolver(assemble_jac=True)
+            return om.DirectSolver(assemble_jac=True, rhs_checking=rc)
         if kind == 'krylov':
-            s = om.ScipyKrylov(assemble_jac=bool(cfg.get('jac')))
+            s = om.ScipyKrylov(assemble_jac=bool(cfg.get('jac')), rhs_checking=rc)
             s.options['atol'] = 1e-10
             s.options['rtol'] = 1e-10
             s.options['err_on_non_converge'] = True
@@ -1285,6 +1323,12 @@ def gen_voi(rng, md, units=True, scaling=True):
              'units': compatible_units(rng, od['units']) if units and rng.random() < 0.4 else None,
              'scaling': _rand_scaling(rng) if scaling else {}}
         resps.append(d)
+    if md.get('resp_chain'):
+        need = [tuple(x) for x in md['resp_chain']]
+        resps = [r for r in resps if (r['ci'], r['oname']) not in need][:1]
+        for ci, oname in need:
+            resps.append({'ci': ci, 'oname': oname, 'indices': None, 'units': None,
+                          'scaling': _rand_scaling(rng) if scaling and rng.random() < 0.5 else {}})
     return {'desvars': dvs, 'responses': resps}
 
 
